@@ -11,7 +11,7 @@ from ..model import Model, numel
 from ..seeds import digest
 from ..shrinkspec import spec_candidates
 from ..spec import gen_mtl, gen_program, pick_outputs
-from ..world import EPS, World, compare, expect_backward, expect_mtl, gen_sched, run_call, tensor_bytes
+from ..world import spec_eps, EPS, World, compare, expect_backward, expect_mtl, gen_sched, run_call, tensor_bytes
 from . import c02 as C02
 
 ID = "C06"
@@ -130,7 +130,7 @@ def _agg_tensors(agg):
 
 def execute(scn):
     spec = scn["spec"]
-    eps = EPS[spec["dtype"]]
+    eps = spec_eps(spec)
     model = Model(spec)
     cut_cache = {}
     world = World(spec, scn["sched"])
